@@ -1125,4 +1125,231 @@ def standin_cli_fmt_converters(tier, seed):
     return judge('cli_fmt_converters', bound, len(runs), runs)
 
 
-STANDINS = [standin_token_mutations, standin_garbage, standin_generated_edges, standin_cli_fmt_converters]
+# ------------------------------------------------------------------ (e) `ucg fmt` with a comment at EVERY token boundary
+# "formatting ... finishes with either a result or a diagnostic": the formatter re-attaches comments to the syntax tree, so where a comment sits is an
+# input dimension of its own.  Family: programs that parse, with a comment (line of its own / group of 2 / two groups / trailing on the previous line / ...)
+# inserted at each token boundary in turn -- including before the first and after the last token --, at pairs of boundaries and at all boundaries at once.
+# One small program per construct of the language reference (grammar.md), at top level and nested (indent > 0):
+FMT_TOUR = [
+    'let x = 1;', 'let x = 1.5 + 2 * 3 - 4 / 5 %% 6;', 'let x = "s" + "t";', 'let x = NULL;\nlet y = true;', 'let l = [1, 2, 3];', 'let l = [[1], [2, [3]]];', 'let l = [];',
+    'let t = {a = 1, b = "two"};', 'let t = {"quoted key" = 1, inner = {c = [1, 2]}};', 'let t = {};', 'let t = {a :: 0 = 1, b :: "" | NULL = "s"};', 'let x :: 0 = 1;',
+    'let x :: in 1..3 | 5 = 2;', 'constraint c = in 1..1024 | "a" | NULL;', 'constraint c = {a = 0, b = [""]};', 'let g = (1 + 2) * 3;',
+    'let s = select ("a", 1) => {a = 1, b = 2};', 'let s = select (true) => {true = "y", false = "n"};', 'let f = func(a, b) => a + b;', 'let f = func() => 1;',
+    'let f = func(a :: 0, b :: "") => {x = a, y = b};', 'let m = module{a = 1, b = "s"} => {let c = mod.a;};', 'let m = module{a = 1} => (res) {let res = mod.a + 1;};',
+    'let m = module{a = 1} => (res :: 0) {let res = mod.a; let other = [res];};', 'let t = {a = 1};\nlet c = t{a = 2, b = 3};', 'let f = func(a) => a;\nlet r = f(1);\nlet r2 = f(f(2), 3);',
+    'let s = "@ and @" % (1, "two");', 'let s = "@{item.a} x" % {a = 1};', 'let d = func(x) => x * 2;\nlet r = map(d, [1, 2, 3]);\nlet total = 1 + 2;', 'let r = map(func(x) => x * 2, [1, 2, 3]);',
+    'let r = filter(func(x) => x > 1, [1, 2, 3]);\nlet n = 1;', 'let r = reduce(func(acc, x) => acc + x, 0, [1, 2, 3]);\nlet n = 1;', 'let r = map(func(k, v) => [k, v], {a = 1});',
+    'let d = func(x) => x;\nlet r = filter(d, [1]);\nlet q = reduce(func(a, b) => a, 0, [1]);\nlet n = 1;', 'let r = 0:5;\nlet r2 = 0:2:10;', 'let i = import "std/lists.ucg";',
+    'let i = include str "file.txt";', 'let x = fail "message";', 'let x = fail "m @" % (1);', 'let x = not true;', 'let x = TRACE (1 + 2);', 'let x = a.b.c;\nlet y = l.0;\nlet z = t."quoted key";\nlet w = l.(1 + 1);',
+    'let x = 1 == 1 && 2 != 3 || 1 < 2;\nlet y = 1 >= 1;\nlet z = 1 <= 2;', 'let x = 1 in [1];\nlet y = "a" in {a = 1};\nlet z = 1 is "int";', 'let x = "a" ~ "b";\nlet y = "a" !~ "b";',
+    'let x = convert json {a = 1};', 'out json {a = 1};', 'assert {ok = true, desc = "d"};', '1 + 1;', 'let x = env.HOME;', 'let x = int("1") + float(1) + str(1) + bool("true");',
+    'let m = module{} => {\n    let f = func(a) => map(func(x) => x, a);\n    let t = {l = [select (a, 1) => {a = 1}]};\n};',
+    'let t = {\n    f = func(a) => {g = map(func(x) => x + 1, a)},\n    m = module{} => {let x = [1, {y = 2}];},\n};',
+    'let f = func(l) => reduce(func(acc, x) => acc + x, 0, filter(func(x) => x > 0, map(func(x) => x, l)));',
+    'let m = module{l = []} => (r) {\n    let r = map(func(x) => x,\n        mod.l);\n};\nlet u = m{l = [1]};', 'let t = {a = map(func(x) => x, [1]), b = filter(func(x) => x, [2])};\nlet n = 2;',
+    'let s = select (x, {}) => {\n    a = map(f, [1]),\n    b = {c = filter(f, [2])},\n};\nlet n = 1;', '// leading\nlet x = 1; // trailing\n\n// own group\nlet y = [1, // inner\n    2];\n// last',
+]
+CMT_FORMS_QUICK = ['line', 'group2', 'two_groups', 'trailing']
+CMT_FORMS_ALL = CMT_FORMS_QUICK + ['indented', 'crlf', 'empty']
+
+
+def commented_sep(sep, first, form, tag='c'):
+    """The separator `sep` (blanks / comments between two tokens; first=True: the text before the first token) with one more comment in it."""
+    at_line_start = sep.endswith('\n') or (sep == '' and first)
+    nl = sep if at_line_start else sep + '\n'
+    if form == 'line':              # a comment line of its own in front of the next token
+        return nl + '// %s\n' % tag
+    if form == 'group2':            # a group of two comment lines
+        return nl + '// %s1\n// %s2\n' % (tag, tag)
+    if form == 'two_groups':        # two comment groups separated by a blank line
+        return nl + '// %s1\n\n// %s2\n' % (tag, tag)
+    if form == 'trailing':          # at the end of the line of the previous token
+        return ' // %s\n' % tag + sep
+    if form == 'indented':
+        return nl + '        // %s\n        ' % tag
+    if form == 'crlf':
+        return (sep if at_line_start else sep + '\r\n') + '// %s\r\n' % tag
+    if form == 'empty':
+        return nl + '//\n'
+    if form == 'no_newline':        # only after the last token: the text ends inside the comment
+        return nl + '// %s' % tag
+    raise ValueError(form)
+
+
+def with_comments(toks, tail, places):
+    """The program with comments inserted at token boundaries: places = [(boundary, form)]; boundary 0 = before the first token, len(toks) = after the last."""
+    toks = list(toks)
+    for i, form in places:
+        tag = 'c' if len(places) == 1 else 'c%d' % i
+        if i < len(toks):
+            toks[i] = (commented_sep(toks[i][0], i == 0, form, tag), toks[i][1])
+        else:
+            tail = commented_sep(tail, not toks, form, tag)
+    return unlex(toks, tail)
+
+
+def with_comment(toks, tail, i, form):
+    return with_comments(toks, tail, [(i, form)])
+
+
+def split_statements(src):
+    """Top-level statements of a program (token level: a `;` outside every bracket ends one), each with the blanks / comments in front of it."""
+    toks, tail = lex(src)
+    out, cur, depth = [], [], 0
+    for s_, t_ in toks:
+        cur.append((s_, t_))
+        if t_ in '([{' and len(t_) == 1:
+            depth += 1
+        elif t_ in ')]}' and len(t_) == 1:
+            depth = max(0, depth - 1)
+        elif t_ == ';' and depth == 0:
+            out.append(unlex(cur, ''))
+            cur = []
+    if cur:
+        out.append(unlex(cur, tail))
+    return out
+
+
+def fmt_find_crash(work, names, stop, per_file=PER_CASE):
+    """`ucg fmt` over the files (one process); -> None, or (name, status, detail) of the first file on which fmt does not end with exit status 0 / 1.
+    fmt stops at the first file it cannot format (exit 1), hiding the files after it, so a batch that does not exit 0 is split and re-run."""
+    if stop.is_set() or not names:
+        return None
+    exe = R.ucg_binary()
+    try:
+        p = subprocess.run([exe, 'fmt'] + names, cwd=work, stdout=subprocess.DEVNULL, stderr=subprocess.PIPE, stdin=subprocess.DEVNULL, timeout=per_file * (1 + len(names) / 20.0),
+                           env=dict(os.environ, RUST_BACKTRACE='0'))
+        rc, err = p.returncode, p.stderr[-400:].decode('utf-8', 'replace').strip().replace('\n', ' | ')
+    except subprocess.TimeoutExpired:
+        rc, err = 'timeout', ''
+    if rc == 0 and 'panicked at' not in err:
+        return None
+    if len(names) == 1:
+        if rc == 1 and 'panicked at' not in err:
+            return None
+        stop.set()
+        return (names[0], 'TIMEOUT', 'no exit within %.0f s' % per_file) if rc == 'timeout' else (names[0], 'CRASH', 'exit status %s: %s' % (rc, err))
+    half = len(names) // 2
+    return fmt_find_crash(work, names[:half], stop, per_file) or fmt_find_crash(work, names[half:], stop, per_file)
+
+
+def standin_fmt_comments_everywhere(tier, seed):
+    ensure_built()
+    rnd = random.Random(seed)
+    thorough = tier == 'thorough'
+    budget = 75.0 if thorough else 12.0
+    t0 = time.time()
+    forms = CMT_FORMS_ALL if thorough else CMT_FORMS_QUICK
+    cases = []          # (source, origin, boundary description)  in priority order
+
+    def singles(src, origin, boundaries=None, fs=None):
+        toks, tail = lex(src)
+        for i in (range(len(toks) + 1) if boundaries is None else boundaries):
+            for f in (fs or forms) + (['no_newline'] if i == len(toks) else []):
+                cases.append((with_comment(toks, tail, i, f), origin, 'boundary %d of %d, form %s' % (i, len(toks), f)))
+    # -- 1. the tour: every boundary x every form; all boundaries at once; pairs of boundaries
+    for k, src in enumerate(FMT_TOUR):
+        singles(src, 'tour[%d]' % k)
+    n_tour1 = len(cases)
+    for k, src in enumerate(FMT_TOUR):
+        toks, tail = lex(src)
+        n = len(toks) + 1
+        for f in ('line', 'trailing', 'group2'):
+            cases.append((with_comments(toks, tail, [(i, f) for i in range(n)]), 'tour[%d]' % k, 'all %d boundaries, form %s' % (n, f)))
+        pairs = [(i, j) for i in range(n) for j in range(i + 1, n)]
+        if len(pairs) > (120 if thorough else 12):
+            pairs = rnd.sample(pairs, 120 if thorough else 12)
+        for i, j in pairs:
+            fi, fj = rnd.choice(['line', 'trailing', 'group2']), rnd.choice(['line', 'trailing', 'group2'])
+            cases.append((with_comments(toks, tail, [(i, fi), (j, fj)]), 'tour[%d]' % k, 'boundaries %d (%s) and %d (%s) of %d' % (i, fi, j, fj, n - 1)))
+    n_tour = len(cases)
+    # -- 2. every top-level statement of every shipped file that parses (and of generated programs), as a program of its own
+    shipped = shipped_files()
+    fam = gen_edge_families()
+    gen = rnd.sample(fam['expr_templates'] + fam['stmt_templates'] + fam['format_templates'] + fam['wrong_arity'], 120 if thorough else 30) + [r_program(rnd, 3) for _ in range(60 if thorough else 15)]
+    parses = run_cases_sharded('ast', [t for _, t in shipped] + gen, 2)
+    good_files = [(p, t) for (p, t), (st, _) in zip(shipped, parses) if st == 'OK']
+    good_gen = [g for g, (st, _) in zip(gen, parses[len(shipped):]) if st == 'OK']
+    stmts, seen = [], set()
+    for p, t in good_files:
+        for k, st_ in enumerate(split_statements(t)):
+            if st_.strip() and st_ not in seen:
+                seen.add(st_)
+                stmts.append(('%s statement %d' % (p, k + 1), st_))
+    stmts += [('generated program', g) for g in good_gen]
+    n_bound_stmts = sum(len(lex(s_)[0]) + 1 for _, s_ in stmts)
+    if thorough:
+        order = list(range(len(stmts)))
+        rnd.shuffle(order)
+        for k in order:
+            singles(stmts[k][1], stmts[k][0])
+    else:
+        # a seeded sample of (statement, boundary, form) triples
+        flat = [(k, i) for k, (_, s_) in enumerate(stmts) for i in range(len(lex(s_)[0]) + 1)]
+        for k, i in rnd.sample(flat, min(len(flat), 1200)):
+            singles(stmts[k][1], stmts[k][0], boundaries=[i], fs=[rnd.choice(forms)])
+    n_stmt = len(cases) - n_tour
+    # -- 3. whole shipped files (the statements in their context): a seeded sample of boundaries
+    flat = [(k, i) for k, (_, t) in enumerate(good_files) for i in range(len(lex(t)[0]) + 1)]
+    for k, i in rnd.sample(flat, min(len(flat), 4000 if thorough else 120)):
+        singles(good_files[k][1], good_files[k][0] + ' (whole file)', boundaries=[i], fs=[rnd.choice(forms)])
+    n_file = len(cases) - n_tour - n_stmt
+
+    work = tempfile.mkdtemp(prefix='verif_c04c_')
+    stop = threading.Event()
+    found = []
+    done = [0]
+    try:
+        # batches: small programs 200 per process, whole files 25 per process
+        batches, i = [], 0
+        while i < len(cases):
+            size = 200 if i < n_tour + n_stmt else 25
+            batches.append((i, min(len(cases), i + size)))
+            i += size
+        lock = threading.Lock()
+        it = iter(batches)
+
+        def worker():
+            while not stop.is_set() and time.time() - t0 < budget:
+                with lock:
+                    b = next(it, None)
+                if b is None:
+                    return
+                d = os.path.join(work, 'b%d' % b[0])
+                os.makedirs(d)
+                names = []
+                for k in range(b[0], b[1]):
+                    with open(os.path.join(d, 'f%d.ucg' % k), 'w', encoding='utf-8', newline='') as f:
+                        f.write(cases[k][0])
+                    names.append('f%d.ucg' % k)
+                r = fmt_find_crash(d, names, stop)
+                shutil.rmtree(d, ignore_errors=True)
+                with lock:
+                    if r:
+                        found.append((int(r[0][1:-4]),) + r[1:])
+                    else:
+                        done[0] += b[1] - b[0]
+        par([worker] * 8)
+    finally:
+        shutil.rmtree(work, ignore_errors=True)
+    n_run = done[0]
+    bound = ('real binary `ucg fmt` on programs with a `// c` comment inserted at a token boundary (forms: %s; after the last token also a comment without line end): '
+             '(1) %d one-construct programs written from the language reference: EVERY boundary x every form (%d texts) + all boundaries at once x 3 forms + %s pairs of boundaries per program; '
+             '(2) the %d distinct top-level statements of the %d shipped .ucg files that parse + %d generated programs, each as a program of its own (%d boundaries): %s (%d texts); '
+             '(3) %d whole shipped files with a comment at a seeded sample of boundaries (%d texts); %d of the %d texts were run within the time budget of %.0f s: exit status 0 or 1, no panic message'
+             % (', '.join(forms), len(FMT_TOUR), n_tour1, 'up to 120 seeded' if thorough else '12 seeded', len(stmts) - len(good_gen), len(good_files), len(good_gen), n_bound_stmts,
+                'EVERY boundary x every form, statements in seeded order' if thorough else 'a seeded sample of 1200 (statement, boundary, form) triples', n_stmt, len(good_files), n_file, n_run, len(cases), budget))
+    runs = []
+    for k, st, pl in sorted(found):
+        runs.append(('ucg fmt', cases[k][0], st, pl))
+    r = judge('fmt_comments_everywhere', bound, n_run + len(found), runs)
+    if r['status'] == 'violation':
+        for k, st, pl in sorted(found):
+            if cases[k][0] == r['input']['source']:
+                r['input']['comment_inserted_into'] = cases[k][1]
+                r['input']['comment_inserted_at'] = cases[k][2]
+                break
+    return r
+
+
+STANDINS = [standin_token_mutations, standin_garbage, standin_generated_edges, standin_cli_fmt_converters, standin_fmt_comments_everywhere]
